@@ -21,6 +21,11 @@ declare -A MAP=(
  ["integer layers accept layers without bias"]="C14"
  ["MATCH dilated convolutions"]="C14"
  ["MAUPITI layers compensate"]="C14"
+ ["PIT freezes the features that it cannot mask"]="C09"
+ ["fused only once"]="C07"
+ ["0-bit precision also for input-connected"]="C05"
+ ["not in ascending order"]="C20"
+ ["despite float rounding"]="C20"
 )
 fail=0
 git -C /repo log --format='%h %s' bfd6014..HEAD | grep ' fix:' | while read h msg; do
